@@ -191,7 +191,7 @@ func ruleCopyReferenceProtocol(c *core.Ctx) {
 		alloc := callVertices(g, "pdf.(*Writer).Alloc")
 		if len(alloc) != 1 {
 			o.Count(1)
-			o.Fail("expected one Alloc call, found %d", len(alloc))
+			o.Unrec("expected one Alloc call, found %d", len(alloc))
 			return
 		}
 		o.At(fn.Site(alloc[0].Call, "Alloc"))
@@ -465,7 +465,7 @@ func ruleCryptRecipe(c *core.Ctx) {
 				o.FailAt(fn.Site(rs, ""), "%s: %s is returned for a stream whose crypt context may be nil", c.Prog.Pos(rs.Pos()), core.ExprStr(rs.Results[0]))
 			}
 		}
-		o.Require(n >= 3, "expected at least three non-none recipe returns, found %d", n)
+		o.Shape(n >= 3, "expected at least three non-none recipe returns, found %d", n)
 		// and the users dereference x.crypt only under the recipe / a nil test
 		for _, fname := range []string{"RawStreamReader", "DecodeStream"} {
 			uf := c.Prog.FuncOpt("pdf", fname)
@@ -575,7 +575,7 @@ func ruleCryptRecipe(c *core.Ctx) {
 			}
 			return true
 		})
-		o.Require(n == 1, "target stream literal not found")
+		o.Shape(n == 1, "target stream literal not found")
 	})
 	c.Check(rule, "pdf.filterChainStartsWithCrypt", "the /Crypt probe looks at the /Filter entry and at the first array element only after resolving indirect references (the writer and the copier must classify a stream like GetFilters does)", func(o *core.Ob) {
 		fn := c.Prog.Func("pdf", "filterChainStartsWithCrypt")
@@ -619,7 +619,7 @@ func ruleCryptRecipe(c *core.Ctx) {
 			}
 			return true
 		})
-		o.Require(n >= 2, "expected the probe to inspect the entry and its first element")
+		o.Shape(n >= 2, "expected the probe to inspect the entry and its first element")
 		// the element inspected is index 0
 		idx0 := false
 		ast.Inspect(fn.Decl.Body, func(m ast.Node) bool {
@@ -643,7 +643,7 @@ func ruleCopierErrors(c *core.Ctx) {
 		rs := callVertices(g, "pdf.Resolve")
 		if len(rs) != 1 {
 			o.Count(1)
-			o.Fail("expected one Resolve call")
+			o.Unrec("expected one Resolve call")
 			return
 		}
 		o.At(fn.Site(rs[0].Call, "Resolve"))
@@ -852,7 +852,7 @@ func ruleNilEntryDiscipline(c *core.Ctx) {
 					}
 				}
 			}
-			o.Require(n == 1, "expected one AsPDF call on an element, found %d", n)
+			o.Shape(n == 1, "expected one AsPDF call on an element, found %d", n)
 		})
 	}
 }
